@@ -3,9 +3,9 @@
 SPEC = {
     "props": ["Props.C12"],
     "tie": ["Tie.C12", "Tie.C11", "Tie.C10"],  # Client.Checkpoint verifies with NewRFC6962Verifier (checkpoint.go), whose guards are tied in Tie.C11
-    "engines": [{"engine": "client", "timeout": 1500}],
+    "engines": [{"engine": "client", "timeout": 1500}, {"engine": "tilereader", "timeout": 900}],
     "required_theorems": [
-        "C12_entries_authentic", "C12_entries_authentic_tiles", "C12_entry_index", "C12_entry_index_strict", "C12_inclusion", "C12_checkpoint",
+        "C12_entries_authentic", "C12_entries_authentic_tiles", "C12_tile_reader_sound", "C12_pinned_tile_reader_sound_where_it_skips_nothing", "C12_entry_index", "C12_entry_index_strict", "C12_inclusion", "C12_checkpoint",
         "cutentry", "entries", "allentries", "entry", "checkinclusion", "checkpoint", "with_cut_entry", "tile_width",
         "torchwood_tile_loop", "torchwood_entry",
     ],
